@@ -68,6 +68,29 @@ func (i *Index) Search(key types.Key) (BlockHandle, bool) {
 	return BlockHandle{}, false
 }
 
+// SearchLowerBound returns the data block that holds the first entry greater
+// than or equal to key, i.e. the first block whose EndKey is not below key.
+// A versioned lookup key such as "k@readTs" sorts before every stored version
+// of k it may see and may fall between two blocks, so Search, which wants a
+// block that starts at or before the key, cannot be used for lower bounds.
+func (i *Index) SearchLowerBound(key types.Key) (BlockHandle, bool) {
+	low, high := 0, len(i.Entries)-1
+	res := -1
+	for low <= high {
+		mid := low + ((high - low) >> 1)
+		if types.CompareKeys(i.Entries[mid].EndKey, key) >= 0 {
+			res = mid
+			high = mid - 1
+		} else {
+			low = mid + 1
+		}
+	}
+	if res < 0 {
+		return BlockHandle{}, false
+	}
+	return i.Entries[res].DataHandle, true
+}
+
 func (i *Index) Scan(start, end types.Key) []BlockHandle {
 	var res []BlockHandle
 	for _, entry := range i.Entries {
